@@ -87,11 +87,12 @@ def run(ctx):
     # the example store's own primitives racing on one key (free-running, fresh servers): one client writes and reads back
     # its own values while another only changes the key's life time (EXPIRE never changes a value) or lists keys
     racing = []
-    for i in range(12000 if thorough else 4000):
-        w = [x for j in range(3) for x in ({"cls": "lin", "name": "SET", "args": [tok("key", "ka"), tok("str", "v0%d" % j)]},
-                                           {"cls": "lin", "name": "GET", "args": [tok("key", "ka")]})]
-        o = [{"cls": "lin", "name": "EXPIRE", "args": [tok("key", "ka"), tok("int", n=1000)]} if (i + j) % 3 else
-             {"cls": "lin", "name": "KEYS", "args": [tok("str", "s:star")]} for j in range(5)]
+    for i in range(2000 if thorough else 400):
+        # (long programs on one server: the windows are a few instructions wide, only many overlapping calls find them)
+        w = [x for j in range(25) for x in ({"cls": "lin", "name": "SET", "args": [tok("key", "ka"), tok("str", "v%02d" % j)]},
+                                            {"cls": "lin", "name": "GET", "args": [tok("key", "ka")]})]
+        o = [{"cls": "lin", "name": "EXPIRE", "args": [tok("key", "ka"), tok("int", n=1000)]} if (i + j) % 4 else
+             {"cls": "lin", "name": "KEYS", "args": [tok("str", "s:star")]} for j in range(40)]
         racing.append({"handler": "example", "gate": False, "nconns": 2, "setup": [], "programs": [w, o]})
     scenarios = forced + ex + free + first + racing
     if ctx.replay:
